@@ -201,12 +201,23 @@ impl WriteProvider for Dropbox {
     }
 }
 
+// Verification hook (compiled only with `--cfg vsb_verif`): lets the checks in /verif exercise the multi-request upload
+// path with small objects by lowering the request size limit through $VSB_VERIF_DROPBOX_MAX_REQUEST_SIZE
+#[cfg(vsb_verif)]
+fn verif_max_request_size() -> Option<u64> {
+    std::env::var("VSB_VERIF_DROPBOX_MAX_REQUEST_SIZE").ok().and_then(|size| size.parse().ok()).filter(|&size| size > 0)
+}
+
 impl UploadProvider for Dropbox {
     fn hasher(&self) -> Box<dyn Hasher> {
         Box::new(ChunkedSha256::new(4 * 1024 * 1024))
     }
 
     fn max_request_size(&self) -> Option<u64> {
+        #[cfg(vsb_verif)]
+        if let Some(size) = verif_max_request_size() {
+            return Some(size);
+        }
         Some(150 * 1024 * 1024)
     }
 
